@@ -323,7 +323,9 @@ func (w *World) Do(st Step) (res Result) {
 		for _, p := range names {
 			w.Loc[p] = "queue" // registering: from now on they must be waiting or seated
 		}
-		err := w.R.AddPlayers(names)
+		arg, reuse := lend(names)
+		err := w.R.AddPlayers(arg)
+		reuse()
 		res.Err = err
 		if pre.Status == 2 {
 			for _, p := range names {
@@ -415,6 +417,20 @@ func (w *World) Do(st Step) (res Result) {
 	return
 }
 
+// lend hands a batch of player ids to the regulator the way a caller with its own buffer does: the
+// slice is a window of a larger array (spare capacity behind it), and once the call has returned the
+// caller uses the buffer for something else. The regulator must have taken what it needs by then.
+func lend(ids []string) (arg []string, reuse func()) {
+	buf := make([]string, len(ids), len(ids)+4)
+	copy(buf, ids)
+	return buf, func() {
+		full := buf[:cap(buf)]
+		for i := range full {
+			full[i] = fmt.Sprintf("caller-buffer-reused-%d", i)
+		}
+	}
+}
+
 // handBack calls ReleasePlayers for the players table id was told to release.
 func (w *World) handBack(id string, res *Result) {
 	out := w.Pen[id]
@@ -432,7 +448,10 @@ func (w *World) handBack(id string, res *Result) {
 	if len(out) == 0 {
 		return
 	}
-	if err := w.R.ReleasePlayers(id, out); err != nil {
+	arg, reuse := lend(out)
+	err := w.R.ReleasePlayers(id, arg)
+	reuse()
+	if err != nil {
 		res.Err = err
 		w.bad("release-refused", "ReleasePlayers(%s, %v) failed: %v", id, out, err)
 	}
